@@ -31,7 +31,7 @@ PClass(c, s, p) == IF p = "" THEN "none" ELSE IF p = Own(c, s.T) THEN "own"
                    ELSE IF \E u \in SubUnits(c) : ModOf(u) = s.T /\ Known(c, u, p) THEN "sub-only"   \* only a submodule of the module declares it
                    ELSE "foreign"
 \* class of the (first) undeclared prefix of a statement
-BadPrefixClass(c, s) == LET i == CHOOSE i \in Slots(Expr(s)) : s.pf[i] # "" /\ ~Known(c, s.T, s.pf[i]) IN PClass(c, s, s.pf[i])
+BadPrefixClass(c, s) == LET i == CHOOSE i \in PSlots(Expr(s)) : s.pf[i] # "" /\ ~Known(c, s.T, s.pf[i]) IN PClass(c, s, s.pf[i])
 FailRec(e, what, s, detail) == [id |-> e.id, at |-> l, what |-> what, kind |-> s.kind, place |-> s.place, detail |-> detail,
                                unit |-> IF IsSub(s.T) THEN "submodule" ELSE "module"]
 NoStmt == [kind |-> "", place |-> "", T |-> ""]
